@@ -130,6 +130,8 @@ class Filenames(object):
     def __next__(self):
         for name in self.newFilename:
             return name
+        # The generator has already given up: keep reporting the error
+        raise ValueError('Filename could not be created.')
 
     def addExtension(self, filename):
         """ Add a file extension to the filename if none exists """
